@@ -51,13 +51,14 @@ VARIABLES
     link,    \* [Nodes \X Nodes -> LinkState]
     round,   \* [H -> SUBSET Nodes]   peers whose SendHeaders response the current syncLoop iteration still has to handle
     seen,    \* [H -> SUBSET Blocks]  last header ids already synced in this iteration (syncer.go:842-851)
+    htip,    \* [H -> Blocks]         tip when the iteration began: cm.History() is taken ONCE per iteration (syncer.go:811)
     sync,    \* [H -> record]         the running parallelSync, if any
     banned,  \* SUBSET (H \X Nodes)   PeerStore.Ban calls
     misb,    \* SUBSET (H \X Z)       provable misbehaviour observed
     goal,    \* the heaviest honest initial tip (history variable fixed by Init)
     act      \* label of the last transition (hidden by VIEW)
 
-vars == <<known, tip, link, round, seen, sync, banned, misb, goal>>
+vars == <<known, tip, link, round, seen, htip, sync, banned, misb, goal>>
 allvars == <<vars, act>>
 sview == vars
 
@@ -81,6 +82,7 @@ TypeOK ==
     /\ link \in [Nodes \X Nodes -> LinkState]
     /\ round \in [H -> SUBSET Nodes]
     /\ seen \in [H -> SUBSET Blocks]
+    /\ htip \in [H -> Blocks]
     /\ \A n \in H : sync[n].on \in BOOLEAN /\ sync[n].base \in Blocks /\ sync[n].top \in Blocks /\ sync[n].nxt \in Nat
     /\ banned \subseteq (H \X Nodes)
     /\ misb \subseteq (H \X Z)
@@ -94,6 +96,7 @@ Init ==
     /\ link = [p \in Nodes \X Nodes |-> "off"]
     /\ round = [n \in H |-> {}]
     /\ seen = [n \in H |-> {}]
+    /\ htip = tip
     /\ sync = [n \in H |-> NoSync]
     /\ banned = {}
     /\ misb = {}
@@ -110,8 +113,9 @@ BanUpd(n, p) ==
     /\ banned' = banned \cup {<<n, p>>}
     /\ link' = DropLink(link, n, p)
 
-\* ids n offers to a peer, chain/manager.go:160-184 + syncer.go:818-836
-HistIds(n) == {AncAt(T, tip[n], x) : x \in HistHeights(K, T.h[tip[n]], Lowest(n), HistAnchor)}
+\* ids n offers to its peers in the current iteration, chain/manager.go:160-184 + syncer.go:811-836:
+\* the sample of the best chain as it was when the iteration began
+HistIds(n) == {AncAt(T, htip[n], x) : x \in HistHeights(K, T.h[htip[n]], Lowest(n), HistAnchor)}
 
 \* the first (highest) offered id the honest peer p finds on its best chain
 \* (Manager.Headers, chain/manager.go:189-206), or "none"
@@ -141,7 +145,7 @@ Connect(a, b) ==
     /\ <<a, b>> \notin banned /\ <<b, a>> \notin banned
     /\ link' = [link EXCEPT ![<<a, b>>] = "unsynced", ![<<b, a>>] = "unsynced"]
     /\ act' = Lbl([op |-> "Connect", a |-> a, b |-> b])
-    /\ UNCHANGED <<known, tip, round, seen, sync, banned, misb, goal>>
+    /\ UNCHANGED <<known, tip, round, seen, htip, sync, banned, misb, goal>>
 
 -----------------------------------------------------------------------------
 (* syncLoop, syncer.go:784-864 *)
@@ -154,6 +158,7 @@ SyncTick(n) ==
     /\ \E p \in Nodes : link[<<n, p>>] = "unsynced"
     /\ round' = [round EXCEPT ![n] = {p \in Nodes : link[<<n, p>>] = "unsynced"}]
     /\ seen' = [seen EXCEPT ![n] = {}]
+    /\ htip' = [htip EXCEPT ![n] = tip[n]]
     /\ act' = Lbl([op |-> "SyncTick", n |-> n])
     /\ UNCHANGED <<known, tip, link, sync, banned, misb, goal>>
 
@@ -167,7 +172,7 @@ HandleRespHonest(n, p) ==
     /\ p \in round[n]
     /\ ~sync[n].on
     /\ round' = [round EXCEPT ![n] = @ \ {p}]
-    /\ UNCHANGED <<known, tip, banned, misb, goal>>
+    /\ UNCHANGED <<known, tip, htip, banned, misb, goal>>
     /\ IF link[<<n, p>>] # "unsynced"
          THEN /\ UNCHANGED <<link, sync, seen>>
               /\ act' = Lbl([op |-> "Headers", n |-> n, p |-> p, res |-> "gone"])
@@ -194,7 +199,7 @@ HandleRespByz(n, z) ==
     /\ z \in round[n]
     /\ ~sync[n].on
     /\ round' = [round EXCEPT ![n] = @ \ {z}]
-    /\ UNCHANGED <<known, tip, banned, misb, goal>>
+    /\ UNCHANGED <<known, tip, htip, banned, misb, goal>>
     /\ IF link[<<n, z>>] # "unsynced"
          THEN /\ UNCHANGED <<link, sync, seen>>
               /\ act' = Lbl([op |-> "Headers", n |-> n, p |-> z, res |-> "gone"])
@@ -251,7 +256,7 @@ FetchHonest(n, w) ==
     /\ link[<<n, w>>] = "unsynced"
     /\ CanServe(w, BatchOf(n))
     /\ ApplyBatch(n, w, BatchOf(n))
-    /\ UNCHANGED <<round, seen, goal>>
+    /\ UNCHANGED <<round, seen, htip, goal>>
 
 \* a Byzantine worker may serve the exact blocks (whatever their validity); every other answer
 \* (blocks not matching the headers, wrong count, malformed, stall, bogus checkpoint state / block /
@@ -262,7 +267,7 @@ FetchByz(n, z) ==
     /\ sync[n].nxt < NBatches(n)
     /\ link[<<n, z>>] = "unsynced"
     /\ ApplyBatch(n, z, BatchOf(n))
-    /\ UNCHANGED <<round, seen, goal>>
+    /\ UNCHANGED <<round, seen, htip, goal>>
 
 \* "all peers failed to sync blocks": no honest worker can serve the next batch
 SyncAbort(n) ==
@@ -271,7 +276,7 @@ SyncAbort(n) ==
     /\ ~\E w \in H : link[<<n, w>>] = "unsynced" /\ CanServe(w, BatchOf(n))
     /\ sync' = [sync EXCEPT ![n] = NoSync]
     /\ act' = Lbl([op |-> "SyncAbort", n |-> n])
-    /\ UNCHANGED <<known, tip, link, round, seen, banned, misb, goal>>
+    /\ UNCHANGED <<known, tip, link, round, seen, htip, banned, misb, goal>>
 
 \* every batch applied: a peer that sent all its headers is marked synced (syncer.go:855-860)
 SyncDone(n) ==
@@ -281,7 +286,7 @@ SyncDone(n) ==
                  THEN [link EXCEPT ![<<n, sync[n].src>>] = "synced"] ELSE link
     /\ sync' = [sync EXCEPT ![n] = NoSync]
     /\ act' = Lbl([op |-> "SyncDone", n |-> n])
-    /\ UNCHANGED <<known, tip, round, seen, banned, misb, goal>>
+    /\ UNCHANGED <<known, tip, round, seen, htip, banned, misb, goal>>
 
 -----------------------------------------------------------------------------
 (* relay handlers, peer.go:353-453.  Announce: an honest node (re-)announces its tip -- *)
@@ -294,7 +299,7 @@ Announce(a, b, kind) ==
     /\ LET x == tip[a]
            p == T.par[x]
        IN /\ act' = Lbl([op |-> "Announce", a |-> a, b |-> b, kind |-> kind])
-          /\ UNCHANGED <<round, seen, sync, misb, goal>>
+          /\ UNCHANGED <<round, seen, htip, sync, misb, goal>>
           /\ IF p \notin known[b]
                THEN \* unknown parent
                     /\ link' = Resync(link, b, a)
@@ -330,7 +335,7 @@ Announce(a, b, kind) ==
 ZRelay(z, n, eff, x) ==
     /\ z \in Z /\ n \in H
     /\ link[<<n, z>>] # "off"
-    /\ UNCHANGED <<round, seen, sync, goal>>
+    /\ UNCHANGED <<round, seen, htip, sync, goal>>
     /\ act' = Lbl([op |-> "ZRelay", z |-> z, n |-> n, eff |-> eff, x |-> x])
     /\ eff # "block" => x = G
     /\ CASE eff = "ban" ->
